@@ -7,8 +7,8 @@ import common as C
 from props import generic as G
 from props import codecgen as CG
 
-MAKE_TARGETS = ["Props/C01.vo", "Props/C01u.vo"]
-PROPS = ["C01", "C01u"]
+MAKE_TARGETS = ["Props/C01.vo", "Props/C01u.vo", "Props/C01s.vo"]
+PROPS = ["C01", "C01u", "C01s"]
 PROFILES = ("release", "dev")
 RULE = ("configurations from a generator biased to Z > 1, N > 1, padding; packet multisets: per block K+h symbols, "
         "h in {-1,0,1,2}, source fraction in {0, .2, .5, 1}, repair ESIs anywhere below 2^24 (incl. the top of the range), "
